@@ -356,7 +356,7 @@ def corpus_cases() -> list[dict]:
 
 
 def run(chk: core.Check):
-    n_cases = 540 if chk.tier == "quick" else 27000
+    n_cases = 540 if chk.tier == "quick" else 8100
     r = np.random.default_rng(chk.seed + 20_002)
     chk.rule = ("log-density triples generated per kind (moderate / extreme to 1e5 / spread over 7 decades / ties / "
                 "all-equal / one dominant / random -inf subset) x namespace x width; non-trivial = at least two "
